@@ -34,6 +34,7 @@ def extern_for(pkg):
                 conv.append(cfront.CPtr(a.arr, a.off, "char"))
             else:
                 conv.append(a)
+        run.c_last_args = conv
         try:
             res = cr.call(name, conv)
         except cfront.Found as f:
